@@ -64,7 +64,7 @@ func (m *Mutex) Unlock() {
 	if vsched.Aborting() {
 		return
 	}
-	vsched.Point(vsched.OpUnlock, &m.id, nil)
+	vsched.Touch(vsched.OpUnlock, &m.id) // a release is a left mover: no scheduling point needed
 	if !m.locked {
 		panic("sync: unlock of unlocked mutex")
 	}
@@ -106,7 +106,7 @@ func (m *RWMutex) Unlock() {
 	if vsched.Aborting() {
 		return
 	}
-	vsched.Point(vsched.OpUnlock, &m.id, nil)
+	vsched.Touch(vsched.OpUnlock, &m.id) // a release is a left mover: no scheduling point needed
 	if !m.writer {
 		panic("sync: Unlock of unlocked RWMutex")
 	}
@@ -137,7 +137,7 @@ func (m *RWMutex) RUnlock() {
 	if vsched.Aborting() {
 		return
 	}
-	vsched.Point(vsched.OpRUnlock, &m.id, nil)
+	vsched.Touch(vsched.OpRUnlock, &m.id)
 	if m.readers <= 0 {
 		panic("sync: RUnlock of unlocked RWMutex")
 	}
@@ -173,7 +173,11 @@ func (w *WaitGroup) Add(d int) {
 	if vsched.Aborting() {
 		return
 	}
-	vsched.Point(vsched.OpWgAdd, &w.id, nil)
+	if d < 0 {
+		vsched.Touch(vsched.OpWgAdd, &w.id)
+	} else {
+		vsched.Point(vsched.OpWgAdd, &w.id, nil)
+	}
 	if d < 0 {
 		vsched.ReleaseMerge(unsafe.Pointer(&w.anchor))
 	}
